@@ -1,11 +1,185 @@
 package c10
 
-import (
-	"testing"
+// Part (c) of C10: schedules in which a delete overlaps a cache snapshot or a
+// compaction already in flight. Two threads on a real shard under the
+// controlled scheduler (every sync operation of the tsdb packages is a
+// scheduling point, delay-bounded): one runs WriteSnapshot / a full
+// compaction, the other a range delete or a series drop. After quiescence, after
+// a further snapshot and compaction, and after a reopen, a delete that
+// returned nil must hold: the deleted points are gone and stay gone, everything
+// else is still there.
 
+import (
+	"fmt"
+	"os"
+	"strings"
+	"testing"
+	"testing/synctest"
+
+	"github.com/influxdata/influxdb/pkg/vsync"
+	"github.com/influxdata/influxql"
+
+	ek "verif/harness/enginekit"
+	"verif/mc/explore"
 	"verif/mc/report"
 )
 
-func workerMain(t *testing.T, scenario string)    {}
-func schedPart(t *testing.T, c *report.Check)     {}
-func replaySched(t *testing.T, rp *report.Replay) {}
+type schedScenario struct {
+	name     string
+	base     string // "cache": everything in the cache; "files": two TSM files + cache
+	other    string // "snapshot" | "compact"
+	del      string // "range" | "series"
+	bound    [2]int
+	maxExecs [2]int64
+}
+
+var schedScenarios = []schedScenario{
+	{name: "range delete x cache snapshot in flight", base: "cache", other: "snapshot", del: "range", bound: [2]int{1, 2}},
+	{name: "series drop x cache snapshot in flight", base: "cache", other: "snapshot", del: "series", bound: [2]int{1, 2}},
+	{name: "range delete x full compaction in flight", base: "files", other: "compact", del: "range", bound: [2]int{1, 2}},
+	{name: "series drop x full compaction in flight", base: "files", other: "compact", del: "series", bound: [2]int{1, 2}},
+}
+
+var (
+	scA = ek.Series{Measurement: "cpu", Tags: map[string]string{"host": "a"}}
+	scB = ek.Series{Measurement: "cpu", Tags: map[string]string{"host": "b"}}
+)
+
+func sfv(x float64) ek.Val { return ek.Val{Typ: influxql.Float, F: x} }
+
+func schedBody(t *testing.T, sc schedScenario) func(tp *explore.Tape) explore.Outcome {
+	return func(tp *explore.Tape) (out explore.Outcome) {
+		dir := ek.NewTempDir("c10c")
+		defer os.RemoveAll(dir)
+		var errO, errD error
+		var res vsync.Result
+		var viol, sig string
+		filesAfter := ""
+		synctest.Test(t, func(t *testing.T) {
+			env := &ek.Env{Dir: dir, IndexType: "inmem", BlockSize: 2, WAL: true}
+			if err := env.Open(); err != nil {
+				panic(err)
+			}
+			defer env.Close()
+			m := ek.NewModel()
+			write := func(pts []ek.Point) {
+				m.Write(pts)
+				if err := env.Write(pts); err != nil {
+					panic(err)
+				}
+			}
+			write([]ek.Point{{scA, "v", 1, sfv(1)}, {scA, "v", 2, sfv(2)}, {scA, "v", 3, sfv(3)}, {scB, "v", 2, sfv(20)}})
+			if sc.base == "files" {
+				env.Snapshot()
+				write([]ek.Point{{scA, "v", 4, sfv(4)}, {scB, "v", 4, sfv(40)}})
+				env.Snapshot()
+				write([]ek.Point{{scA, "v", 5, sfv(5)}})
+			}
+			other := func() { errO = env.Snapshot() }
+			if sc.other == "compact" {
+				other = func() {
+					// as the engine's compaction loop runs it: registered in the compaction wait group
+					done := env.Engine.VCompactFullInFlight()
+					if done == nil {
+						errO = fmt.Errorf("compactions are disabled")
+						return
+					}
+					<-done
+				}
+			}
+			cond, min, max := "host = 'a' AND time >= 2 AND time <= 4", int64(2), int64(4)
+			if sc.del == "series" {
+				cond, min, max = "host = 'a'", influxql.MinTime, influxql.MaxTime
+			}
+			del := func() { errD = env.DeleteWhere("cpu", cond) }
+			// let goroutines left over from the set-up (WAL sync, snapshot writers) finish or block
+			// before the scheduler takes over: their progress would otherwise differ between runs
+			synctest.Wait()
+			res = vsync.Run(func(n int, label string, preempt bool) int { return tp.Choose(n, label) },
+				vsync.Config{Focus: []string{"github.com/influxdata/influxdb/tsdb"}}, other, del)
+			if res.Deadlock || res.Livelock {
+				out.Violation = fmt.Sprintf("deadlock=%v livelock=%v: %s", res.Deadlock, res.Livelock, strings.Join(res.Stuck, "; "))
+				out.Sig = "sched:deadlock:" + sc.other
+				out.Steps = res.Steps
+				explore.Abort(tp, out)
+			}
+			filesAfter = env.Engine.VLayout() // physical outcome of the race: which files exist, with which tombstones
+			if errD != nil {
+				return // the delete did not complete: nothing is claimed for it
+			}
+			m.DeleteRange(func(s ek.Series) bool { return s.Key() == scA.Key() }, min, max)
+			check := func(when string) bool {
+				if v, s := env.CheckReads(m, []ek.Series{scA, scB}, map[string]influxql.DataType{"v": influxql.Float}, []ek.Range{{influxql.MinTime, influxql.MaxTime, true}, {influxql.MinTime, influxql.MaxTime, false}}, true); v != "" {
+					viol = fmt.Sprintf("%s a delete that completed while a %s was in flight: %s", when, sc.other, v)
+					sig = "sched:" + sc.del + "-delete-vs-" + sc.other + ":" + s
+					return false
+				}
+				return true
+			}
+			if !check("after quiescence,") {
+				return
+			}
+			if err := env.Snapshot(); err != nil && !strings.Contains(err.Error(), "snapshot in progress") {
+				viol, sig = "snapshot after the race failed: "+err.Error(), "sched:later-snapshot-error"
+				return
+			}
+			if !check("after a further snapshot,") {
+				return
+			}
+			env.Engine.VCompact("full")
+			if !check("after a further full compaction,") {
+				return
+			}
+			if err := env.Reopen(); err != nil {
+				viol, sig = "reopen failed: "+err.Error(), "sched:reopen-error"
+				return
+			}
+			check("after a restart,")
+		})
+		out.Steps = res.Steps
+		out.Obs = fmt.Sprintf("%s: other-err=%v delete-err=%v layout-after=%s", sc.name, errO != nil, errD != nil, filesAfter)
+		out.Violation, out.Sig = viol, sig
+		out.Detail = sc.name
+		return out
+	}
+}
+
+func findSched(name string) (schedScenario, bool) {
+	for _, s := range schedScenarios {
+		if s.name == name {
+			return s, true
+		}
+	}
+	return schedScenario{}, false
+}
+
+func workerMain(t *testing.T, scenario string) {
+	sc, ok := findSched(scenario)
+	if !ok {
+		t.Fatalf("unknown scenario %q", scenario)
+	}
+	explore.WorkerLoop(schedBody(t, sc))
+}
+
+func schedPart(t *testing.T, c *report.Check) {
+	for _, sc := range schedScenarios {
+		bound := sc.bound[0]
+		if c.Thorough() {
+			bound = sc.bound[1]
+		}
+		r := explore.ExploreProcs(explore.ProcConfig{Scenario: sc.name, Bound: bound, Procs: 16, Budget: 50, MaxExecs: int64(c.Pick(20000, 300000))})
+		c.AddExplore(fmt.Sprintf("schedules: %s (delay bound %d)", sc.name, bound), r, map[string]any{"part": "c", "scenario": sc.name, "bound": bound})
+	}
+}
+
+func replaySched(t *testing.T, rp *report.Replay) {
+	sc, ok := findSched(rp.Config["scenario"])
+	if !ok {
+		t.Fatalf("unknown scenario %q", rp.Config["scenario"])
+	}
+	out, tp := explore.Replay(rp.Tape, schedBody(t, sc))
+	fmt.Printf("replay %s\n%d choices\n%s\noutcome: %+v\n", sc.name, len(tp.Choices), strings.Join(tp.Labels(), "\n"), out)
+	if out.Violation != "" {
+		report.ExitCode = 1
+	}
+}
